@@ -542,3 +542,25 @@ Definition hist_receiver (fuel : nat) (te : tenv) (tname : str) (id : Z) (r : sx
   | Some loc => Ok (GPtr (Some loc), (h, sh))
   | None => hist_convert fuel te true tname id r h sh
   end.
+
+(* a Go method called on record id that returns a pointer its Go object owns: the receiver itself (path []) or the
+   struct pointer stored in one of its fields (path = field indices); callgo.go turns the result into a NEW record
+   (registry scan, MakeHash, FillHashFromShadow).  The new record is a value of its own: FillHashFromShadow sets
+   GoShadowStruct/ShadowSet but leaves GoShadowStructVa invalid, so a later (togo) of it builds a fresh struct. *)
+Definition hist_return (fuel : nat) (te : tenv) (tname : str) (id : Z) (r : sx) (path : list nat)
+           (h : list goval) (sh : shadows) : res (sx * (list goval * shadows)) :=
+  do (v, hs) <- hist_receiver fuel te tname id r h sh;
+  match v with
+  | GPtr (Some loc) =>
+    match path with
+    | [] => do x <- from_val fuel te (fst hs) (TPtr tname) v; Ok (x, hs)
+    | _ => match nth_error (fst hs) loc with
+           | Some obj => match get_path obj path, type_at te (TStruct tname) path with
+                         | Some pv, Some pty => do x <- from_val fuel te (fst hs) pty pv; Ok (x, hs)
+                         | _, _ => OutOfModel
+                         end
+           | None => OutOfModel
+           end
+    end
+  | _ => OutOfModel
+  end.
